@@ -9,15 +9,29 @@ Open Scope Z_scope.
 
 (* ---- constructor: _check_values and __init__ as regenerated = hand model, for EVERY input ------ *)
 
+(* case analysis on every test the regenerated code makes, whatever comparison it is written with
+   (`len(v) != v.nunique()`, `not n_unique == len(v)`, `len(fh) == 0`, `not len(fh) > 0`, ...) *)
+Ltac split_tests :=
+  cbv zeta;
+  repeat match goal with
+         | |- context [if ?b then _ else _] =>
+             lazymatch b with
+             | context [if _ then _ else _] => fail
+             | _ => let E := fresh "E" in destruct b eqn:E
+             end
+         end.
+
 Lemma bridge_check_values i : gen_check_values i = check_values i.
 Proof.
-  unfold gen_check_values, check_values, finish_index.
+  unfold gen_check_values, check_values, finish_index. cbv zeta.
   destruct i as [z|b|ns|ns| |l|a b s| ]; cbn [as_index as_int as_seq]; try reflexivity;
-    (* shape after the proposed fix for F-C02-1: an explicit string test before the coercion *)
+    (* shape after the fix for F-C02-1: an explicit string test before the coercion *)
     try (match goal with |- context [seq_has_str ?s] =>
            destruct (seq_has_str s) eqn:E;
-           [pose proof (seq_has_str_err s E) as X; cbn [pd_int64index] in X; rewrite X|] end;
-         cbn [pd_int64index]; reflexivity).
+           [pose proof (seq_has_str_err s E) as X; cbn [pd_int64index] in X; rewrite X|] end);
+    cbn [pd_int64index]; try reflexivity;
+    try (match goal with |- context [coerce_all ?l] => destruct (coerce_all l) end);
+    try reflexivity; split_tests; try reflexivity; lia.
 Qed.
 
 Lemma bridge_init i r : gen_init i r = fh_init i r.
@@ -142,7 +156,9 @@ Qed.
 Lemma bridge_check_fh x e : gen_check_fh x e = check_fh x e.
 Proof.
   unfold gen_check_fh, check_fh, gen_to_pandas, gen_is_relative.
-  destruct x as [i|f]; [rewrite bridge_init; destruct (fh_init i (RBool true))|]; reflexivity.
+  destruct x as [i|f]; [rewrite bridge_init; destruct (fh_init i (RBool true)) as [f|]|];
+    try reflexivity; destruct e; destruct (rel f); cbn [negb andb];
+    split_tests; try reflexivity; try discriminate; unfold zlen in *; lia.
 Qed.
 
 (* ---- the property's sentences, about the regenerated code ------------------------------------ *)
